@@ -5,7 +5,7 @@
 run; THIS file is hand-written and says, per site key (`file|struct::function|array[#k]`, no line numbers), HOW the site
 is accounted for:
 
-* `.thm name`     — a Lean definedness theorem (`Properties/C10.lean`, `Properties/C10b.lean`): for every well-formed
+* `.thm name`     — a Lean definedness theorem (`Properties/C10.lean`, `Properties/C10c.lean`): for every well-formed
                     input every allocated cell is written before it is read and the result does not depend on the
                     initial heap contents;  the generated file checks that the named theorem exists;
 * `.poison h`     — exercised under allocation poisoning by harness `h` of tools/checks/C10.json: `h_pipeline` runs
@@ -38,27 +38,27 @@ deriving DecidableEq, Repr
 /-- site key ↦ how it is covered -/
 def cover : List (String × List Cover) := [
   ("amgcl/adapter/block_matrix.hpp|unblock_matrix|A.ptr", [.poison "h_pipeline"]),
-  ("amgcl/backend/builtin.hpp|crs::crs|col", [.thm "Amgcl.C10b.clone_defined", .poison "h_pipeline"]),
-  ("amgcl/backend/builtin.hpp|crs::crs|col#2", [.thm "Amgcl.C10b.crs_copy_defined", .poison "h_pipeline"]),
-  ("amgcl/backend/builtin.hpp|crs::crs|col#3", [.thm "Amgcl.C10b.clone_defined", .poison "h_pipeline"]),
-  ("amgcl/backend/builtin.hpp|crs::crs|ptr", [.thm "Amgcl.C10b.clone_defined", .poison "h_pipeline"]),
-  ("amgcl/backend/builtin.hpp|crs::crs|ptr#2", [.thm "Amgcl.C10b.crs_copy_defined", .poison "h_pipeline"]),
-  ("amgcl/backend/builtin.hpp|crs::crs|ptr#3", [.thm "Amgcl.C10b.clone_defined", .poison "h_pipeline"]),
-  ("amgcl/backend/builtin.hpp|crs::crs|val", [.thm "Amgcl.C10b.clone_defined", .poison "h_pipeline"]),
-  ("amgcl/backend/builtin.hpp|crs::crs|val#2", [.thm "Amgcl.C10b.crs_copy_defined", .poison "h_pipeline"]),
-  ("amgcl/backend/builtin.hpp|crs::crs|val#3", [.thm "Amgcl.C10b.clone_defined", .poison "h_pipeline"]),
-  ("amgcl/backend/builtin.hpp|crs::operator=|col", [.thm "Amgcl.C10b.clone_defined", .poison "h_pipeline"]),
-  ("amgcl/backend/builtin.hpp|crs::operator=|ptr", [.thm "Amgcl.C10b.clone_defined", .poison "h_pipeline"]),
-  ("amgcl/backend/builtin.hpp|crs::operator=|val", [.thm "Amgcl.C10b.clone_defined", .poison "h_pipeline"]),
-  ("amgcl/backend/builtin.hpp|crs::set_nonzeros|col", [.thm "Amgcl.C10b.two_pass_defined", .poison "h_pipeline"]),
+  ("amgcl/backend/builtin.hpp|crs::crs|col", [.thm "Amgcl.C10c.clone_defined", .poison "h_pipeline"]),
+  ("amgcl/backend/builtin.hpp|crs::crs|col#2", [.thm "Amgcl.C10c.crs_copy_defined", .poison "h_pipeline"]),
+  ("amgcl/backend/builtin.hpp|crs::crs|col#3", [.thm "Amgcl.C10c.clone_defined", .poison "h_pipeline"]),
+  ("amgcl/backend/builtin.hpp|crs::crs|ptr", [.thm "Amgcl.C10c.clone_defined", .poison "h_pipeline"]),
+  ("amgcl/backend/builtin.hpp|crs::crs|ptr#2", [.thm "Amgcl.C10c.crs_copy_defined", .poison "h_pipeline"]),
+  ("amgcl/backend/builtin.hpp|crs::crs|ptr#3", [.thm "Amgcl.C10c.clone_defined", .poison "h_pipeline"]),
+  ("amgcl/backend/builtin.hpp|crs::crs|val", [.thm "Amgcl.C10c.clone_defined", .poison "h_pipeline"]),
+  ("amgcl/backend/builtin.hpp|crs::crs|val#2", [.thm "Amgcl.C10c.crs_copy_defined", .poison "h_pipeline"]),
+  ("amgcl/backend/builtin.hpp|crs::crs|val#3", [.thm "Amgcl.C10c.clone_defined", .poison "h_pipeline"]),
+  ("amgcl/backend/builtin.hpp|crs::operator=|col", [.thm "Amgcl.C10c.clone_defined", .poison "h_pipeline"]),
+  ("amgcl/backend/builtin.hpp|crs::operator=|ptr", [.thm "Amgcl.C10c.clone_defined", .poison "h_pipeline"]),
+  ("amgcl/backend/builtin.hpp|crs::operator=|val", [.thm "Amgcl.C10c.clone_defined", .poison "h_pipeline"]),
+  ("amgcl/backend/builtin.hpp|crs::set_nonzeros|col", [.thm "Amgcl.C10c.two_pass_defined", .poison "h_pipeline"]),
   ("amgcl/backend/builtin.hpp|crs::set_nonzeros|this.col+val", [.poison "h_pipeline"]),
-  ("amgcl/backend/builtin.hpp|crs::set_nonzeros|val", [.thm "Amgcl.C10b.two_pass_defined", .poison "h_pipeline"]),
-  ("amgcl/backend/builtin.hpp|crs::set_size|ptr", [.thm "Amgcl.C10b.two_pass_defined", .poison "h_pipeline"]),
+  ("amgcl/backend/builtin.hpp|crs::set_nonzeros|val", [.thm "Amgcl.C10c.two_pass_defined", .poison "h_pipeline"]),
+  ("amgcl/backend/builtin.hpp|crs::set_size|ptr", [.thm "Amgcl.C10c.two_pass_defined", .poison "h_pipeline"]),
   ("amgcl/backend/builtin.hpp|diagonal|dia", [.thm "Amgcl.C10.diagonal_always_defined", .poison "h_pipeline"]),
-  ("amgcl/backend/builtin.hpp|numa_vector::numa_vector|p", [.thm "Amgcl.C10b.fill_vec_defined", .poison "h_pipeline"]),
-  ("amgcl/backend/builtin.hpp|numa_vector::numa_vector|p#2", [.thm "Amgcl.C10b.fill_vec_defined", .poison "h_pipeline"]),
-  ("amgcl/backend/builtin.hpp|numa_vector::numa_vector|p#3", [.thm "Amgcl.C10b.fill_vec_defined", .poison "h_pipeline"]),
-  ("amgcl/backend/builtin.hpp|numa_vector::resize|p", [.thm "Amgcl.C10b.fill_vec_defined", .poison "h_pipeline"]),
+  ("amgcl/backend/builtin.hpp|numa_vector::numa_vector|p", [.thm "Amgcl.C10c.fill_vec_defined", .poison "h_pipeline"]),
+  ("amgcl/backend/builtin.hpp|numa_vector::numa_vector|p#2", [.thm "Amgcl.C10c.fill_vec_defined", .poison "h_pipeline"]),
+  ("amgcl/backend/builtin.hpp|numa_vector::numa_vector|p#3", [.thm "Amgcl.C10c.fill_vec_defined", .poison "h_pipeline"]),
+  ("amgcl/backend/builtin.hpp|numa_vector::resize|p", [.thm "Amgcl.C10c.fill_vec_defined", .poison "h_pipeline"]),
   ("amgcl/backend/builtin.hpp|pointwise_matrix|Ap.col+val", [.poison "h_pipeline"]),
   ("amgcl/backend/builtin.hpp|spectral_radius|b0", [.poison "h_pipeline"]),
   ("amgcl/backend/builtin.hpp|spectral_radius|b1", [.poison "h_pipeline"]),
@@ -70,9 +70,9 @@ def cover : List (String × List Cover) := [
   ("amgcl/coarsening/ruge_stuben.hpp|ruge_stuben::operators|P.col+val", [.poison "h_pipeline"]),
   ("amgcl/coarsening/smoothed_aggr_emin.hpp|smoothed_aggr_emin::operators|Af.col+val", [.poison "h_pipeline"]),
   ("amgcl/coarsening/smoothed_aggr_emin.hpp|smoothed_aggr_emin::operators|Af.ptr", [.poison "h_pipeline"]),
-  ("amgcl/coarsening/tentative_prolongation.hpp|tentative_prolongation|P.col+val", [.thm "Amgcl.C10b.tentative_prolongation_defined", .poison "h_pipeline"]),
+  ("amgcl/coarsening/tentative_prolongation.hpp|tentative_prolongation|P.col+val", [.thm "Amgcl.C10c.tentative_prolongation_defined", .poison "h_pipeline"]),
   ("amgcl/coarsening/tentative_prolongation.hpp|tentative_prolongation|P.ptr", [.poison "h_pipeline"]),
-  ("amgcl/coarsening/tentative_prolongation.hpp|tentative_prolongation|P.ptr#2", [.thm "Amgcl.C10b.tentative_prolongation_defined", .poison "h_pipeline"]),
+  ("amgcl/coarsening/tentative_prolongation.hpp|tentative_prolongation|P.ptr#2", [.thm "Amgcl.C10c.tentative_prolongation_defined", .poison "h_pipeline"]),
   ("amgcl/detail/spgemm.hpp|spgemm_rmerge|C.col+val", [.poison "h_pipeline"]),
   ("amgcl/detail/spgemm.hpp|spgemm_rmerge|C.ptr", [.poison "h_pipeline"]),
   ("amgcl/detail/spgemm.hpp|spgemm_saad|C.col+val", [.thm "Amgcl.C10.product_cells_all_written", .poison "h_pipeline"]),
@@ -141,7 +141,7 @@ def cover : List (String × List Cover) := [
   ("amgcl/preconditioner/schur_pressure_correction.hpp|schur_pressure_correction::init|Kup.col+val", [.poison "h_pipeline"]),
   ("amgcl/preconditioner/schur_pressure_correction.hpp|schur_pressure_correction::init|Kuu.col+val", [.poison "h_pipeline"]),
   ("amgcl/preconditioner/schur_pressure_correction.hpp|schur_pressure_correction::init|L", [.poison "h_pipeline"]),
-  ("amgcl/relaxation/ilu0.hpp|ilu0::ilu0|D", [.thm "Amgcl.C10b.ilu0_defined", .poison "h_pipeline"]),
+  ("amgcl/relaxation/ilu0.hpp|ilu0::ilu0|D", [.thm "Amgcl.C10c.ilu0_defined", .poison "h_pipeline"]),
   ("amgcl/relaxation/ilu0.hpp|ilu0::ilu0|L.col+val", [.poison "h_pipeline"]),
   ("amgcl/relaxation/ilu0.hpp|ilu0::ilu0|L.ptr", [.poison "h_pipeline"]),
   ("amgcl/relaxation/ilu0.hpp|ilu0::ilu0|U.col+val", [.poison "h_pipeline"]),
@@ -155,7 +155,7 @@ def cover : List (String × List Cover) := [
   ("amgcl/relaxation/ilut.hpp|ilut::ilut|L.ptr", [.poison "h_pipeline"]),
   ("amgcl/relaxation/ilut.hpp|ilut::ilut|U.col+val", [.poison "h_pipeline"]),
   ("amgcl/relaxation/ilut.hpp|ilut::ilut|U.ptr", [.poison "h_pipeline"]),
-  ("amgcl/relaxation/spai0.hpp|spai0::spai0|m", [.thm "Amgcl.C10b.spai0_defined", .poison "h_pipeline"])]
+  ("amgcl/relaxation/spai0.hpp|spai0::spai0|m", [.thm "Amgcl.C10c.spai0_defined", .poison "h_pipeline"])]
 
 def coveredKeys : List String := cover.map (·.1)
 
